@@ -174,7 +174,16 @@ def rule_W_INTERNAL(ctx, d, paths):
 
 
 def rule_W_EVAL1(ctx, d, paths):
+    hidden = may_evaluate(d.repo)
     for o in paths:
+        # the function handed to a routine of the package that may call it (isvalid's fallback for uninspectable callables) is a possible evaluation
+        for e in o.st.events:
+            if e.kind == 'FNPASS' and e.args[0][1] in hidden:
+                ctx.ob('W-EVAL1', None, False)
+                ctx.fail('W-EVAL1', wq(d), 'function handed to %s()' % e.args[0][1],
+                         'the wrapper passes the wrapped function to %s(), which evaluates it for callables whose signature cannot be inspected (builtins, C functions): '
+                         'such a call is evaluated twice - and a raising one raises after two evaluations' % e.args[0][1], where(d, e.line), render_path(o))
+                break
         n = len(ev_of(o, 'EVAL', 'EVALRAISE'))
         ok = n <= 1
         ctx.ob('W-EVAL1', None, ok)
@@ -1157,6 +1166,16 @@ def pol_lru(ctx, d, paths):
             ok = newest_first and (leftmost_is_newest == (recent_side == 'left'))
             cleared = any(x.kind == 'BK' and x.args[0] == Q and x.args[1] == C('clear') for x in evs[:i])
             ok = ok and cleared
+            # the reference counts must end at exactly one per surviving key: cleared before they are refilled - collections.Counter.update ADDS to what is there
+            nup = [x for x in evs if x.kind == 'BK' and x.args[0] == N and x.args[1] == C('update')]
+            ncl = [x for x in evs if x.kind == 'BK' and x.args[0] == N and x.args[1] == C('clear')]
+            if ok and nup and not ncl and getattr(d.model, 'stdlib_counter', False):
+                ctx.ob('W-POL-LRU', None, False)
+                ctx.fail('W-POL-LRU', wq(d), 'compaction adds to the reference counts',
+                         'after the recency queue was compacted to one occurrence per key the reference counts are refreshed with update() on a collections.Counter, '
+                         'which adds to the old counts instead of replacing them: every old key then looks as if it still had later uses in the queue, the next '
+                         'overflow skips them all and evicts the entry that was used most recently', where(d, nup[0].line), render_path(o))
+                continue
             ctx.ob('W-POL-LRU', None, ok)
             if not ok:
                 ctx.fail('W-POL-LRU', wq(d), 'compaction by de-duplication keeps the wrong occurrence',
